@@ -43,6 +43,10 @@ def run(ctx):
         from checks import c08
         c08.run_cache(ctx, prop="C12")
         return
+    if rarea == "nscmd":
+        if ctx.ensure_harness():
+            run_nscmd(ctx, 1, "C12")
+        return
     if run_syntax(ctx):  # front end (lexer+parser) on script texts; True = it served a --replay of one of its own cases
         return
     if not ctx.replay_file:
@@ -50,6 +54,8 @@ def run(ctx):
         # must be answered as a fresh compilation of THAT text, whatever was compiled before it (the stream of C08, judged here too)
         from checks import c08
         c08.run_cache(ctx, build=False, prop="C12")
+        # … and the commander's own glue around the machine: every case also goes through Commander.CreateTransaction
+        ctx.cov["evaluations_through_commander"] = run_nscmd(ctx, 600 if ctx.quick else 20000, "C12")
     r = run_numscript(ctx, 2500 if ctx.quick else 100000)
     if r is None:
         return
